@@ -21,6 +21,8 @@ pub enum CasArg {
     Stale(usize),
     Plus1,
     Minus1,
+    /// the current token with one bit flipped (every byte of the CAS field matters)
+    XorBit(u8),
     Raw(u64),
 }
 
@@ -319,6 +321,14 @@ impl Model {
             CasArg::Current => cur.unwrap_or_else(|| self.issued[key].last().copied().unwrap_or(7)),
             CasArg::Plus1 => cur.unwrap_or(1).wrapping_add(1).max(1),
             CasArg::Minus1 => cur.unwrap_or(3).wrapping_sub(1).max(1),
+            CasArg::XorBit(b) => {
+                let x = cur.unwrap_or(5) ^ (1u64 << (*b % 64));
+                if x == 0 {
+                    1 << 40
+                } else {
+                    x
+                }
+            }
             CasArg::Stale(k) => {
                 let old: Vec<u64> = self.issued[key].iter().copied().filter(|t| Some(*t) != cur).collect();
                 if old.is_empty() {
@@ -964,7 +974,10 @@ impl Model {
                                 }
                             }
                             st::EXISTS => {
-                                if m != Some(true) {
+                                // C07: "on a value that is not a decimal u64 they fail with 'non-numeric value'" -
+                                // whatever CAS the request carries; a CAS mismatch is only an answer for a value
+                                // that could have been counted
+                                if m != Some(true) && (strict.is_some() || len.is_some()) {
                                     cands.push(Next::Same);
                                 }
                             }
